@@ -351,6 +351,9 @@ LITERAL_TEXTS = [
     ("'a'", 'a'), ('"a"', 'a'), ("''", ''), ('""', ''), ("'it\"s'", 'it"s'), ('"it\'s"', "it's"),
     ("'Assets:Cash'", 'Assets:Cash'), ("' spaced  out '", ' spaced  out '), ("'/* no comment */'", '/* no comment */'),
     ("'; not a comment'", '; not a comment'), ("'two\nlines'", 'two\nlines'), ("'%s'", '%s'), ("'é中'", 'é中'),
+    # the OTHER kind of quote at the start / end of the content, alone, and on both sides
+    ("\"'q'\"", "'q'"), ("'\"q\"'", '"q"'), ("'\"'", '"'), ("\"'\"", "'"), ("'say \"hi\"'", 'say "hi"'), ("\"x'\"", "x'"), ("'\"x'", '"x'),
+    ("\"''\"", "''"), ("'\"\"'", '""'),
     ("'SELECT'", 'SELECT'), ('"NULL"', 'NULL'), ("'2020-01-01'", '2020-01-01'), ("'1.5'", '1.5'), ("'back\\slash'", 'back\\slash'),
 ]
 
